@@ -238,6 +238,38 @@ def run(ctx, rep):
     if EQ is not None:
         seq_equality_rule(rep, EQ)
 
+    # ---------------- N5f the short name is always consulted: `eq_name` answers from the long-name comparison only when
+    # that comparison said `equal`; every other path to its return crosses ShortName::eq_ignore_case, whose result is
+    # the answer (an entry listed under its 8.3 name - any OEM bytes, any length in bytes - is found by that name).
+    # Seed C15-Q: a byte-length "fast path" (`name.len() > 12 => false`) in front of the short-name comparison
+    EN = facts.fns.get('fatfs::dir_entry::DirEntry::eq_name')
+    if EN is None:
+        rep.machinery('ANCHOR-MISSING DirEntry::eq_name')
+    else:
+        from analyses import switch_source, nonzero_targets, path_to
+        sn = [b for b, t in EN.calls() if (t.get('callee') or '').endswith('ShortName::eq_ignore_case')]
+        rets = [b for b in EN.reachable() if EN.blocks[b]['term']['k'] == 'return']
+        cut_edges = set()
+        for bi in EN.reachable():
+            tt = EN.blocks[bi]['term']
+            if tt['k'] != 'switch':
+                continue
+            src = switch_source(EN, bi)
+            if src and src['kind'] == 'call' and (src['term'].get('callee') or '').endswith('DirEntry::eq_name_lfn'):
+                cut_edges |= {(bi, x) for x in nonzero_targets(tt)}
+        ok = bool(sn) and bool(rets)
+        path = path_to(EN, 0, rets, cut_blocks=sn, cut_edges=cut_edges) if ok else None
+        flows = any(tk[0] == 'call' and tk[1].endswith('ShortName::eq_ignore_case') for tk in Deps(EN).of_local(0))
+        ok = ok and path is None and flows
+        rep.oblige('N5f', EN.name, ok=ok, nontrivial=True,
+                   sample={'fn': EN.name, 'short_name_calls': len(sn), 'lfn_true_edges': len(cut_edges)})
+        if not ok:
+            rep.violation('N5', vkey('N5', EN.name, 'short-name-skipped', ''),
+                          EN.loc(EN.span),
+                          'eq_name can answer without comparing the short name although the long-name comparison did not '
+                          'say `equal` (path %s): an entry is listed under a name that open / remove / rename / the '
+                          'existence check do not find' % (path,))
+
 
 def seq_equality_rule(rep, fn):
     """a loop that compares two sequences element by element may only report `equal` after it has seen the end of
